@@ -26,6 +26,7 @@
    teardown decision of handle_data, escaping exceptions, the default access log line and the
    close of both sockets. *)
 From PM Require Import Lib.Bytes Lib.PyStr Net.Auth.
+From Coq Require Import ZArith.
 
 Inductive hook := BUC | DNS | HCR | HCD | HUC | OAL | OUCC.
 (* before_upstream_connection, resolve_dns, handle_client_request, handle_client_data,
@@ -192,8 +193,11 @@ Fixpoint resolve_chain (ps : list plugin) (host : bytes) (port : N) (l : log)
 Definition connect_upstream (cf : config) (ps : list plugin) (r : request) (conn_ok : bool) (l : log)
     : log * option fail :=
   match nonempty (rq_host r), rq_port r with
-  | Some host, Some port =>
-      if port =? 0 then (l, Some (FReject None)) else        (* `if host and port` *)
+  | Some host, Some zport =>
+      if (zport =? 0)%Z then (l, Some (FReject None)) else        (* `if host and port` *)
+      if negb ((0 <? zport)%Z && (zport <=? 65535)%Z) then (l, Some (FReject None)) else
+                                                             (* `if not 0 < port <= 65535: raise HttpProtocolException` (fix f918c36) *)
+      let port := Z.to_N zport in
       if negb (utf8_valid host) then (l, Some (FRaise UnicodeDecodeError)) else   (* text_(host), twice *)
       let '(l1, dns) := resolve_chain ps host port l in
       match dns with
